@@ -434,8 +434,8 @@ class Disk(Shape):
 
     def h(self, n):
         n = np.asarray(n, dtype=float)
-        k = float(self.n @ n)
-        return float(self.c @ n + self.r * math.sqrt(max(0.0, float(n @ n) - k * k)))
+        t = n - float(self.n @ n) * self.n   # tangential component (no 1-k^2 cancellation)
+        return float(self.c @ n + self.r * float(np.linalg.norm(t)))
 
     def argsup(self, n):
         n = np.asarray(n, dtype=float)
